@@ -273,8 +273,9 @@ func (r *Reader) traverseNode(n *html.Node, ctx *parseContext) {
 				text := getDirectTextContent(n)
 				if text != "" {
 					ctx.listItems = append(ctx.listItems, listItem{
-						Text:  text,
-						Level: ctx.listLevel,
+						Text:    text,
+						Level:   ctx.listLevel,
+						Ordered: ctx.listOrdered,
 					})
 				}
 				// Check for nested lists
@@ -473,8 +474,9 @@ func (r *Reader) traverseNodeFiltered(n *html.Node, ctx *parseContext, elements 
 				text := getDirectTextContent(n)
 				if text != "" {
 					ctx.listItems = append(ctx.listItems, listItem{
-						Text:  text,
-						Level: ctx.listLevel,
+						Text:    text,
+						Level:   ctx.listLevel,
+						Ordered: ctx.listOrdered,
 					})
 				}
 				// Check for nested lists
@@ -871,7 +873,7 @@ func (r *Reader) MarkdownWithOptions(opts ExtractOptions) (string, error) {
 				for j := 0; j < item.Level; j++ {
 					result.WriteString("  ")
 				}
-				if elem.Ordered {
+				if item.Ordered {
 					result.WriteString("1. ")
 				} else {
 					result.WriteString("- ")
